@@ -50,7 +50,7 @@ try:
             meta["ran"].append("pytest (pinned suite) in scratch worktree with patch")
         for c in [c for c in checks if not c.startswith("--")]:
             rc3, out3 = sh("timeout 1500 ./check %s" % c, cwd=V, env={"REPO": scratch}, timeout=1600)
-            lines = [l for l in out3.splitlines() if l.startswith("VIOLATION") or l.startswith("KNOWN-FINDING")]
+            lines = [l for l in out3.splitlines() if l.startswith("VIOLATION")] + [l for l in out3.splitlines() if l.startswith("KNOWN-FINDING")]
             meta.setdefault("checks", {})[c] = {"exit": rc3, "lines": [l[:300] for l in lines[:6]]}
             meta["ran"].append("REPO=%s ./check %s" % (scratch, c))
 finally:
